@@ -25,10 +25,21 @@ pub fn exec(toks: &[&str]) -> String {
     let (Some(spki), Some(msg)) = (unhex(toks[bar + 1]), unhex(toks[bar + 2])) else { return "bad-op".into() };
     let Ok(key) = PublicKey::decode(Bytes::from(spki)) else { return "bad-op".into() };
     match toks[0] {
-        "msg" => match SignedMessage::decode(Bytes::from(msg), true) {
-            Ok(m) => if m.validate_at(&key, c01::time(when)).is_ok() { "ok".into() } else { "err".into() },
-            Err(_) => "err".into(),
-        },
+        "msg" => {
+            let main = match SignedMessage::decode(Bytes::from(msg.clone()), true) {
+                Ok(m) => m.validate_at(&key, c01::time(when)).is_ok(),
+                Err(_) => false,
+            };
+            // the protocol wrappers decide the same question for messages whose content is a protocol document
+            let mut alt = String::new();
+            if let Ok(c) = rpki::ca::publication::PublicationCms::decode(&msg) {
+                if c.validate_at(&key, c01::time(when)).is_ok() != main { alt.push_str(" ALT=PublicationCms"); }
+            }
+            if let Ok(c) = rpki::ca::provisioning::ProvisioningCms::decode(&msg) {
+                if c.validate_at(&key, c01::time(when)).is_ok() != main { alt.push_str(" ALT=ProvisioningCms"); }
+            }
+            format!("{}{}", if main { "ok" } else { "err" }, alt)
+        }
         _ => "bad-op".into(),
     }
 }
@@ -94,7 +105,11 @@ pub fn generate(ctx: &mut Ctx) {
             _ => { let nb = 1_700_000_000 + rng.below(1000) as i64; (nb, nb + 1 + rng.below(100_000) as i64) }
         };
         let dlen = rng.range(0, 300) as usize;
-        let data = rng.bytes(dlen);
+        let data = match i % 3 {
+            0 => b"<msg xmlns=\"http://www.hactrn.net/uris/rpki/publication-spec/\" version=\"4\" type=\"reply\">\n  <success/>\n</msg>".to_vec(),
+            1 => b"<message xmlns=\"http://www.apnic.net/specs/rescerts/up-down/\" version=\"1\" sender=\"c\" recipient=\"p\" type=\"list\">\n</message>".to_vec(),
+            _ => rng.bytes(dlen),
+        };
         let issuer = if i % 5 == 4 { 2 } else { peer };
         let m = SignedMessage::create(Bytes::from(data.clone()),
             Validity::new(c01::time(nb), c01::time(na)), &pool.keys[issuer].id, &pool.signer).unwrap();
@@ -111,7 +126,11 @@ pub fn generate(ctx: &mut Ctx) {
         let na = 1_800_000_000i64;
         let mut when = *rng.pick(&[c01::T0, nb + 7, na - 7]);
         let dlen = rng.range(0, 200) as usize;
-        let content = rng.bytes(dlen);
+        let content = match rng.below(3) {
+            0 => b"<msg xmlns=\"http://www.hactrn.net/uris/rpki/publication-spec/\" version=\"4\" type=\"query\">\n  <list/>\n</msg>".to_vec(),
+            1 => b"<message xmlns=\"http://www.apnic.net/specs/rescerts/up-down/\" version=\"1\" sender=\"c\" recipient=\"p\" type=\"list\">\n</message>".to_vec(),
+            _ => rng.bytes(dlen),
+        };
         let mut content_type = pki::CT_PROTOCOL.to_vec();
         let mut ee = IdSpec {
             serial: vec![rng.range(1, 127) as u8, rng.next() as u8, rng.next() as u8],
